@@ -290,3 +290,6 @@ OBLIGATIONS = [
          timeout=(150, 600), bounds='<= 2 parts; one stream fault (retryable / fatal) at a symbolic position',
          encodes=['BoundedExecutor.submit release callbacks', 'TransferManager executors'], assumptions=['S1', 'S2']),
 ]
+
+from harness.corace import OB_SEM, sliding_window_waiters  # noqa: E402
+OBLIGATIONS += [dict(OB_SEM, id='C12.3', cases_thorough=[(1, 2), (1, 3), (2, 3), (2, 4)])]
